@@ -311,6 +311,33 @@ fn run(ctx: &mut Ctx) {
         let rots: &[usize] = if thorough { &rots_t } else { &rots_q };
         check_event(ctx, &wires, &pads, rots, ["forward-model event", "hits near the seam", "(nearly) full ring", "random hit pattern"][(i % 4) as usize]);
     });
+    // ---- very busy events (thousands of avalanches: any cap, pre-allocation or early exit that depends on how many
+    // there are would cut different avalanches in different placements), and events whose pads have different lengths
+    // from one chip to the next (requested_samples is per PWB packet)
+    ctx.cases("busy-and-uneven", ctx.tier.pick(6, 48), |ctx, i, rng| {
+        if i % 2 == 0 {
+            let (nc, nt, per) = (20 + rng.usize(8), 36 + rng.usize(10), 5 + rng.usize(3));
+            let (wires, pads) = busy_event(&m, rng, nc, nt, per);
+            let n = avalanches(ctx, &wires, &pads).map(|a| a.len()).unwrap_or(0);
+            ctx.observe_max("most avalanches in one event", n as f64);
+            if n > 4096 {
+                ctx.count("events with more than 4096 avalanches compared under rotation and mirror");
+            }
+            let rots = [8usize, 13 + rng.usize(10), 31, 1 + rng.usize(7)];
+            check_event(ctx, &wires, &pads, &rots, "very busy event");
+        } else {
+            let occ = occupancy(rng, 4);
+            let nh = 6 + rng.usize(10);
+            let (wires, mut pads) = random_hits(&m, rng, &occ, nh, 300, 1.0, true);
+            // pads are cut chip by chip (blocks of rows) to their own length
+            let lens: Vec<usize> = (0..64).map(|_| *rng.pick(&[300usize, 300, 250, 200, 150, 100, 60])).collect();
+            for (_, r, s) in pads.iter_mut() {
+                s.truncate(lens[*r / 9]);
+            }
+            let rots: &[usize] = if thorough { &rots_t } else { &rots_q };
+            check_event(ctx, &wires, &pads, rots, "pads of different lengths");
+        }
+    });
     // ---- deterministic witness of KF2: two exactly tied pad hits in one column and time bin
     ctx.cases("kf2-witness", 1, |ctx, _i, _rng| {
         let k = 40;
